@@ -99,6 +99,11 @@ class _OpaqueEx(Extractor):
     def edge(self, e):
         if type(e).__name__ == 'FilterEdge':
             return {'k': 'fn', 'f': '$FilterEdge', 'kw': [], 'silent': []}
+        if type(e).__name__ in ('GroupMapping', 'GroupEdge'):
+            return {'k': 'fn', 'f': '$' + type(e).__name__, 'kw': [], 'silent': []}
+        f = getattr(e, 'function', None)
+        if type(e).__name__ == 'FunctionEdge' and getattr(f, '__module__', '') == 'connectome.layers.group' and f.__name__ == '<lambda>':
+            return {'k': 'fn', 'f': '$sorted', 'kw': list(e.kw_names), 'silent': list(e.silent)}      # the new `ids`: `tuple(sorted(mapping))`
         return super().edge(e)
 
 
@@ -425,4 +430,74 @@ def run_filter_shard(args):
             bad.append({'desc': d, 'what': ['Filter container'] + keys_, 'real': {kk: a[kk] for kk in keys_[:2]}, 'model': {kk: m[kk] for kk in keys_[:2]}})
         elif not ans.get('wf'):
             bad.append({'desc': d, 'what': 'the model container of Filter is not well-formed (Bag.wfB)'})
+    return stats, bad
+
+
+def run_group_shard(args):
+    """the container of `GroupBy(by)._connect(previous)` (layers/group.py `_prepare_container`) against `CM.Model.GroupBag.groupByBag`: the
+    previous real container goes in (datasets, merged datasets, cached and filtered ones, plain layers without `ids`), the grouped containers are
+    compared edge by edge up to node identities (the graphs inside GroupMapping / GroupEdge are opaque here; S-REL compares what they compute)"""
+    seed, n = args
+    paths.use_repo()
+    from . import rel
+    recs, reqs = [], []
+    stats = {'groups': 0, 'errors': {}, 'edges': 0, 'skipped_by': 0}
+    for c in range(n):
+        rng = random.Random(seed * 40009 + c)
+        world = SymWorld()
+        b = Builder(world)
+        kind = rng.choice(['dataset', 'dataset', 'merge', 'chain', 'filtered', 'layer', 'bare'])
+        try:
+            if kind == 'layer':
+                d = gen_layer(rng, c % 7)
+                layer = b.layer(d)
+                names = [o.name for o in layer._container.outputs]
+            else:
+                counter = [0]
+                id_lists = rel.gen_ids(rng, 2 if kind == 'merge' else 1)
+                fields = rng.sample(['x', 'y', 'z'], 0 if kind == 'bare' else rng.randint(1, 3))
+                d = [rel.gen_dataset(rng, counter, ids, fields) for ids in id_lists]
+                layers = [b.layer(x) for x in d]
+                layer = b.c.Merge(*layers) if kind == 'merge' else layers[0]
+                if kind == 'chain':
+                    layer = layer >> b.c.CacheToRam(None)
+                if kind == 'filtered':
+                    layer = layer >> b.c.Filter(lambda id: True)
+                names = [o.name for o in layer._container.outputs if o.name not in ('ids', 'id')]
+            prev = real_bag(world, layer)
+        except Exception:
+            continue
+        by = rng.choice(names) if names and rng.random() < 0.8 else 'id'
+        try:
+            real = {'ok': real_bag(world, None, b.c.GroupBy(by)._connect(layer._container))}
+        except (Unsupported, RecUnsupported):
+            continue
+        except Exception as e:
+            if exc_name(e) in ('DependencyError', 'FieldError', 'GraphError') and len(layer._container.inputs) == 1 and \
+                    any(o.name == 'ids' for o in layer._container.outputs):
+                stats['skipped_by'] += 1          # the `by` graph cannot be compiled: not a matter of the container
+                continue
+            real = {'err': exc_name(e)}
+        recs.append(({'prev': d, 'kind': kind, 'by': by}, real))
+        reqs.append(prev)
+    answers = driver.run_lines([{'op': 'factory', 'groups': reqs}])[0] if reqs else {'groups': []}
+    bad = []
+    if 'error' in answers:
+        return stats, [{'desc': None, 'diff': answers['error']}]
+    for (d, real), ans in zip(recs, answers['groups']):
+        stats['groups'] += 1
+        if 'err' in real or 'err' in ans:
+            kk = real.get('err', 'ok')
+            stats['errors'][kk] = stats['errors'].get(kk, 0) + 1
+            # AssertionError (not one input, no `ids`), RuntimeError (no field to group; the model says ValueError)
+            if ('err' in real) != ('err' in ans) or {real['err'], ans['err']} not in ({'AssertionError'}, {'RuntimeError', 'ValueError'}):
+                bad.append({'desc': d, 'what': 'GroupBy container', 'real': real.get('err', 'ok'), 'model': ans.get('err', 'ok')})
+            continue
+        stats['edges'] += len(real['ok']['edges'])
+        a, m = canon_sem(real['ok']), canon_sem(ans['ok'])
+        if a != m:
+            keys_ = [kk for kk in a if a[kk] != m[kk]]
+            bad.append({'desc': d, 'what': ['GroupBy container'] + keys_, 'real': {kk: a[kk] for kk in keys_[:2]}, 'model': {kk: m[kk] for kk in keys_[:2]}})
+        elif not ans.get('wf'):
+            bad.append({'desc': d, 'what': 'the model container of GroupBy is not well-formed (Bag.wfB)'})
     return stats, bad
